@@ -103,8 +103,8 @@ theorem unique_ids (ops : List Op) (s t : Nat) (st st' : Store) (ri rj : Nat)
 theorem adds_only_own_fresh_key (w : World) (h : Inv w) (s ri : Nat) (st st' : Store) (reg reg' : Registry)
     (name : String) (elems : List UnitElem) (hs : w.stores[s]? = some (st, ri)) (hr : w.regs[ri]? = some reg)
     (hok : addUnit reg st name elems = .ok (reg', st')) :
-    (∃ d, reg' = (prefixName s name, d) :: reg) ∧ prefixName s name ∉ keys reg := by
-  have ext := addUnit_ok hok
+    (∃ d, reg' = (prefixName s name, d) :: reg) ∧ prefixName s name ∉ Iso.keys reg := by
+  have ext := Iso.addUnit_ok hok
   have hid := h.ids s st ri hs
   obtain ⟨d, hd, _⟩ := ext.regEq
   refine ⟨⟨d, by rw [← hid]; exact hd⟩, ?_⟩
